@@ -13,6 +13,8 @@ thresholds, priorities, steps, start clock time, duration) and all states satisf
 import WntrModel.Lemmas.Sched
 import WntrModel.Lemmas.SchedEarliest
 import WntrModel.Lemmas.SchedGeneral
+import WntrModel.Lemmas.TimeProg
+import WntrModel.Lemmas.PresolveProg
 
 namespace Wntr.C04
 open Wntr.Time Wntr.Sched
@@ -101,6 +103,42 @@ theorem clockString_roundtrip (s : Int) (h0 : 0 ≤ s) (h1 : s < 86400) :
   clockParse_roundtrip s h0 h1
 
 example : parseClock 12 0 0 2 = 43200 ∧ parseClock 12 30 0 1 = 1800 := by decide
+
+/-! ## Part A' — the models ARE the source (translator tie)
+
+`harness/props/c04_translate.py` regenerates on every run, from the Python `ast` of the files as they are now, the bodies of
+`SimTimeCondition.evaluate` and `TimeOfDayCondition.evaluate` (Gen/TimeConds.lean, language Model/TimeProg.lean) and the
+statement tree of `_compute_next_timestep_and_run_presolve_controls_and_rules` (Gen/PresolveShape.lean, tokens
+Model/PresolveProg.lean).  The theorems below are re-checked against what the code says NOW: an edit of those functions
+changes the generated terms and breaks them (or the translator refuses a construct it does not know). -/
+
+/-- `SimTimeCondition.evaluate` (value and `_backtrack`) is `evalSimTime`, for all inputs with period `≥ 0` -/
+theorem source_simTime_is_model (c : SimTimeCond) (prev cur : Int) (hrep : 0 ≤ c.rep) :
+    TimeProg.run c.rel Gen.TimeConds.simTimeEvaluate (TimeProg.simEnv c prev cur) none = evalSimTime c prev cur :=
+  TimeProg.generated_simTime_is_model c prev cur hrep
+
+/-- `TimeOfDayCondition.evaluate` is `evalTod`, for all inputs -/
+theorem source_tod_is_model (c : TodCond) (prev cur : Int) :
+    TimeProg.run c.rel Gen.TimeConds.todEvaluate (TimeProg.todEnv c prev cur) none = evalTod c prev cur :=
+  TimeProg.generated_tod_is_model c prev cur
+
+example : TimeProg.run .eq Gen.TimeConds.simTimeEvaluate (TimeProg.simEnv ⟨.eq, 5400, 0⟩ 3600 7200) none = (true, some 1800) := by
+  have := TimeProg.generated_simTime_is_model ⟨.eq, 5400, 0⟩ 3600 7200 (by decide)
+  rw [show (⟨.eq, 5400, 0⟩ : SimTimeCond).rel = Rel.eq from rfl] at this
+  rw [this]; decide
+
+/-- one pass of the `while` loop of the pre-solve scheduler, as regenerated from the source, is `loopStep` — hence
+`presolveLoop` — for every configuration, due list, state and both values of `first_step` -/
+theorem source_scheduler_pass_is_model (cfg : Cfg) (ref : Vals) (due : List Due) (first : Bool) (cnt : Nat) (s : St) :
+    PresolveProg.interpStep cfg ref due first cnt s = loopStep cfg ref due cnt s :=
+  PresolveProg.generated_body_is_loopStep cfg ref due first cnt s
+
+/-- the whole method as regenerated from the source (prologue: check, two stable sorts, first-step override; loop) is the
+hand-written `presolve` that all scheduler theorems of this file are about -/
+theorem source_scheduler_is_model (cfg : Cfg) (first : Bool) (s : St) :
+    PresolveProg.interpLoop cfg s.vals (PresolveProg.runPrologue cfg first s Gen.PresolveShape.prologue) first
+        (presolveFuel cfg (PresolveProg.runPrologue cfg first s Gen.PresolveShape.prologue) s) 0 s = presolve cfg first s :=
+  PresolveProg.generated_method_is_presolve cfg first s
 
 /-! ## Part B — the scheduler -/
 
